@@ -3,14 +3,26 @@
    configuration (MC_TxExec), the generators (Gen_TxExec, Sim_TxExec) and the trace spec. *)
 EXTENDS TxExec
 
-CONSTANTS WithMsg,        \* programs may emit BTP messages (needs an open BTP network in the harness)
+CONSTANTS SyncContracts,  \* contracts whose handler is synchronous (harness: a SyncContractHandler); they and
+                          \* the Hangers are only called without value
+          WithMsg,        \* programs may emit BTP messages (needs an open BTP network in the harness)
           MsgLen, CallLen \* bytes of the data field of message / call transactions (harness encoding)
 
 K1 == "k1"
 K2 == "k2"
 Out(c) == IF WithMsg THEN OMsg ELSE OEv
+Hang(c) == OCall("z", 0, <<>>, c)              \* "z" \in Hangers: the call times out
+Sy == "s"                                      \* the synchronous contract
+\* programs that end in a timeout: directly, after events, one level deeper below a synchronous
+\* frame, with catch flags that must not swallow the timeout
+TimeoutProgs == {
+  <<OSet(K1, 1), Hang(FALSE)>>,
+  <<OSet(K1, 2), OEv, Out(Sy), Hang(TRUE), OSet(K2, 1)>>,
+  <<OSet(K2, 1), OEv, OCall(Sy, 0, <<OSet(K1, 1), OEv, Hang(FALSE)>>, TRUE), OEv>>,
+  <<OTake(1), OCall(Sy, 0, <<OSet(K2, 2), Hang(FALSE), OEv>>, FALSE)>>
+}
 \* programs of contract `s`; `o` is the other contract
-ProgsOf(s, o) == {
+ProgsOf(s, o) == TimeoutProgs \cup {
   <<>>,
   <<OSet(K1, 1), OEv>>,                                                     \* succeeds
   <<OSet(K1, 1), OEv, ORevert>>,                                            \* mutates then reverts
@@ -38,13 +50,24 @@ ProgsOf(s, o) == {
   <<Out(s), OCall(o, 0, <<Out(s), ORevert>>, TRUE), OCall(o, 0, <<Out(s)>>, TRUE), OBurn(2)>>,
   <<OTake(1), OCall(o, 1, <<OTake(1), OXfer("a", 3, TRUE)>>, TRUE), OXfer("a", 1, TRUE)>>  \* refunds
 }
-Other(c) == CHOOSE o \in Contracts : o # c
+Other(c) == IF c = "x" THEN "y" ELSE "x"
+\* the synchronous contract runs the timeout programs and a few basic ones
+SyncProgs == TimeoutProgs \cup {
+  <<OSet(K1, 1), OEv>>,
+  <<OSet(K1, 1), OEv, ORevert>>,
+  <<OSet(K1, 2), OEv, OBurn(3), OSet(K2, 1)>>,
+  <<OSet(K1, 1), OCall("x", 0, <<OSet(K1, 2), OEv, ORevert>>, TRUE), OEv>>,
+  <<OSet(K2, 2), OCall("x", 0, <<OSet(K2, 1), OEv>>, FALSE), OXfer("b", 1, TRUE)>>
+}
+NoValue == SyncContracts \cup Hangers
 
 Shape(kind, to, dlen, prog) == [kind |-> kind, to |-> to, dlen |-> dlen, prog |-> prog]
 Shapes ==
-  {Shape("transfer", to, 0, <<>>) : to \in Payees \cup Contracts \cup Ghosts}
-  \cup {Shape("message", to, MsgLen, <<>>) : to \in Users \cup Contracts}
-  \cup UNION {{Shape("call", c, CallLen, p) : p \in ProgsOf(c, Other(c))} : c \in Contracts}
+  {Shape("transfer", to, 0, <<>>) : to \in Payees \cup (Contracts \ SyncContracts) \cup Ghosts}
+  \cup {Shape("message", to, MsgLen, <<>>) : to \in Users \cup (Contracts \ SyncContracts)}
+  \cup UNION {{Shape("call", c, CallLen, p) : p \in ProgsOf(c, Other(c))} : c \in Contracts \ SyncContracts}
+  \cup {Shape("call", c, CallLen, p) : c \in SyncContracts, p \in SyncProgs}
+  \cup {Shape("call", h, CallLen, <<>>) : h \in Hangers}
   \cup {Shape("call", g, CallLen, <<>>) : g \in Ghosts}
 
 Base(sh) == DefaultCost + InputCost * sh.dlen
@@ -58,4 +81,5 @@ LimitChoices(ww, p, from, sh, value) ==
       aff == IF p > 0 /\ ww.bal[from] >= value THEN {(ww.bal[from] - value) \div p, (ww.bal[from] - value) \div p + 1} ELSE {}
   IN {l \in {DefaultCost, n - 3, n - 2, n - 1, n, n + 1, n + 2} \cup aff : l >= DefaultCost}
 ValueChoices(ww, from) == {0, 1, 2, 3} \cup {v \in {ww.bal[from] - 5, ww.bal[from] - 2, ww.bal[from], ww.bal[from] + 1} : v >= 0}
+ValueChoicesFor(ww, from, to) == IF to \in NoValue THEN {0} ELSE ValueChoices(ww, from)
 =============================================================================
